@@ -62,6 +62,16 @@ CHECKS = {
              'closed-loop part explores generated histories (deletions racing open cycles, released objects at first sight, '
              'restarts) - bounded exploration.',
         design_ref='5/C05'),
+    'C06': dict(
+        technique='property-based testing: Hypothesis-generated closed-loop histories (deletions, label toggles, foreign finalizer edits, '
+                  'API latency producing HTTP 422 conflicts, restarts) over generated delete handlers / daemons / timers; oracle = '
+                  'invariants over the server-side finalizer list at every version vs the handler and daemon run log (F1-F4), incl. '
+                  'bounded liveness at quiescence',
+        text='F1 never early (every operator write that removes the finalizer is justified: nothing matching requires it / every matching '
+             'mandatory deletion handler finished and every matching daemon or timer exited or was abandoned after backoff+timeout); '
+             'F2 released at quiescence; F3 present iff required after the object\'s next event; F4 foreign finalizers and their order '
+             'never touched. One listed known finding (a carried-over release applied after a 422 although requirements changed).',
+        design_ref='5/C06'),
     'C07': dict(
         technique='property-based testing with harness-owned delivery timing: Hypothesis-generated watch-latency schedules around the '
                   'consistency timeout (+-1e-6 s), API latencies and bursts of foreign edits between a PATCH and its echo, in the closed '
